@@ -169,7 +169,7 @@ func c17Reduce(cs c17Case) c17Case {
 // Run is the C17 check.
 func Run(c *core.Ctx) {
 	c.Rule = "cases = (initial document, sequence of LSP content changes, API) checked after every step against a byte-splice reference; exhaustive part: every document of length<=6 over {a,LF} x every ordered (start,end) with lines 0..L+1 and characters 0..maxlen+1 x 7 replacement texts + full replace, through Document.Apply and DocumentContents.Apply; server part: random sessions of didOpen (documents the parser accepts and half-typed ones it refuses) / didChange with 1-3 content changes / didClose+reopen through the real proxy.Server with a recording stand-in for gopls, checking after every notification the server copy against the reference and, when the buffer is a valid template, the Go text handed to gopls against generating from the buffer; non-trivial = the change carries a range (not a whole-document replacement); distinct by (doc,range,text,api)"
-	c.Assume("positions are byte offsets within a line (the server negotiates no position encoding); documents are ASCII as the property's alphabet {letter, newline} states")
+	c.Assume("positions are byte offsets within a line (the server negotiates no position encoding); documents are ASCII (the exhaustive part uses the property's alphabet {letter, newline}; random and server-level documents also contain CR, which the LSP position model counts as an ordinary character of its line)")
 	c.Assume("ranges satisfy start<=end as LSP requires of clients")
 	if c.ReplayFile != "" {
 		var both struct {
@@ -324,7 +324,7 @@ func Run(c *core.Ctx) {
 }
 
 func c17RandEdit(rnd interface{ Intn(int) int }, cur string) c17Edit {
-	texts := []string{"", "", "x", "\n", "ab\ncd", "\n\n", "hello world", "a\n", "\nb", "{ x }", "\n\n\nq"}
+	texts := []string{"", "", "x", "\n", "ab\ncd", "\n\n", "hello world", "a\n", "\nb", "{ x }", "\n\n\nq", "\r\n", "a\r\nb", "\r"}
 	t := texts[rnd.Intn(len(texts))]
 	if rnd.Intn(25) == 0 {
 		return c17Edit{Full: true, Text: t}
